@@ -22,8 +22,10 @@ func init() {
 	sim.Register(&sim.Check{
 		ID: "C44", Title: "Shared protocol structures are free of data races", World: "threads",
 		Gen: genC44, Exec: execC44, Prepare: prepareFn(true),
-		Quick:       sim.Budget{Runs: 1200, WallS: 35},
-		Thorough:    sim.Budget{Runs: 400000, WallS: 780},
+		Quick:    sim.Budget{Runs: 800, WallS: 150},
+		Thorough: sim.Budget{Runs: 400000, WallS: 780},
+		// WallS only caps the batch: on an idle machine the quick batch takes 10-25 s plus 4 s (plain) / 15 s (-race) for the
+		// instrumented build; the driver starts the clock before Prepare, so the cap leaves room for a slow build under load
 		RunsPerProc: 100,
 		LevelText: "seeded search over concurrent workloads and interleavings of the exported Round and Block operations under the Go race detector (-race build of the instrumented copy); " +
 			"every report is a violation whose signature is the pair of racing functions (file:line of both accesses in the detail); a clean batch is evidence, not proof",
